@@ -139,15 +139,67 @@ theorem canonOrKeep_plain (fs : FS) (root rel : Path) (hr : DirChain fs [] root)
   unfold canonOrKeep
   rcases canonicalize_plain fs root rel hr hp with h | ⟨e, h⟩ <;> rw [h]
 
+theorem noLinkBelow_noDotDot (fs : FS) (cur rel : Path) (h : NoLinkBelow fs cur rel) : ".." ∉ rel := by
+  induction rel generalizing cur with
+  | nil => simp
+  | cons c rest ih =>
+    obtain ⟨h1, _, h3⟩ := h
+    simp only [List.mem_cons, not_or]
+    exact ⟨fun e => h1 e.symm, ih _ h3⟩
+
+
+theorem all_ne_dotdot {rel : Path} (h : ".." ∉ rel) : rel.all (fun c => c != "..") = true := by
+  rw [List.all_eq_true]
+  intro c hc
+  simp only [bne_iff_ne, ne_eq]
+  intro e; exact h (e ▸ hc)
+
 theorem relUnder_plain (fs : FS) (root rel : Path) (hr : DirChain fs [] root)
     (hp : NoLinkBelow fs root rel) : relUnder fs root (root ++ rel) = some rel := by
   unfold relUnder
   rw [canonOrKeep_plain fs root rel hr hp, stripPrefix_append]
+  simp only [all_ne_dotdot (noLinkBelow_noDotDot fs root rel hp), if_true]
+
+theorem canonicalize_dirChain (fs : FS) (p : Path) (h : DirChain fs [] p) : canonicalize fs p = .ok p := by
+  unfold canonicalize canonFuel walkF
+  simpa using walkWith_dirChain _ fs [] p rfl h
+
+theorem noLinkBelow_append (fs : FS) (cur a b : Path) :
+    NoLinkBelow fs cur (a ++ b) ↔ NoLinkBelow fs cur a ∧ NoLinkBelow fs (cur ++ a) b := by
+  induction a generalizing cur with
+  | nil => simp [NoLinkBelow]
+  | cons x xs ih =>
+    simp only [List.cons_append, NoLinkBelow, ih]
+    constructor
+    · rintro ⟨h1, h2, h3, h4⟩; exact ⟨⟨h1, h2, h3⟩, by simpa using h4⟩
+    · rintro ⟨⟨h1, h2, h3⟩, h4⟩; exact ⟨h1, h2, h3, by simpa using h4⟩
+
+theorem resolveOrParent_plain (fs : FS) (root rel : Path) (hr : DirChain fs [] root)
+    (hp : NoLinkBelow fs root rel) : resolveOrParent fs (root ++ rel) = root ++ rel := by
+  unfold resolveOrParent
+  rcases canonicalize_plain fs root rel hr hp with h | ⟨e, h⟩
+  · rw [h]
+  · rw [h]
+    simp only
+    rcases List.eq_nil_or_concat rel with hnil | ⟨init, last, hrel⟩
+    · subst hnil
+      rw [List.append_nil] at h
+      rw [canonicalize_dirChain fs root hr] at h
+      cases h
+    · rw [List.concat_eq_append] at hrel
+      subst hrel
+      have hp' := (noLinkBelow_append fs root init [last]).mp hp
+      have eassoc : root ++ (init ++ [last]) = root ++ init ++ [last] := (List.append_assoc _ _ _).symm
+      rw [eassoc]
+      simp only [List.getLast?_concat, List.dropLast_concat]
+      split
+      · rfl
+      · rcases canonicalize_plain fs root init hr hp'.1 with hc | ⟨e', hc⟩ <;> rw [hc]
 
 theorem toAbsolute_plain (fs : FS) (root rel : Path) (hr : DirChain fs [] root)
     (hp : NoLinkBelow fs root rel) : toAbsolute fs root rel = some (root ++ rel) := by
   unfold toAbsolute
-  simp [canonOrKeep_plain fs root rel hr hp, stripPrefix_append]
+  simp [resolveOrParent_plain fs root rel hr hp, stripPrefix_append]
 
 /-! ### erasing a non-directory node keeps plain paths plain -/
 
